@@ -114,8 +114,8 @@ def member(o, T):
     if org in (collections.abc.Sequence, collections.abc.Iterable, collections.abc.Collection, collections.abc.Container):
         if not isinstance(o, org):
             return False
-        if isinstance(o, str):      # nominal convention: str is a sequence of str, also when empty
-            return member("a", args[0])
+        if isinstance(o, str):      # nominal convention: str is a sequence of str (any str, not just some literal), also when empty
+            return member("a", args[0]) and member("\x00zz", args[0])
         if isinstance(o, (bytes, bytearray)):
             return member(0, args[0])
         if isinstance(o, type):
